@@ -42,7 +42,9 @@ sys.path.insert(0, os.path.join(os.path.dirname(os.path.dirname(os.path.abspath(
 from translate import c10_findap_numba as _tr  # noqa: E402
 
 ID = "C10"
-LEAN_MODULES = ["PyYetiVerif.Props.C10", "PyYetiVerif.Props.C10Fde", "PyYetiVerif.Audit.C10"]
+LEAN_MODULES = ["PyYetiVerif.Props.C10", "PyYetiVerif.Props.C10Fde", "PyYetiVerif.Props.C10Fix", "PyYetiVerif.Props.C10FixFde",
+                "PyYetiVerif.Props.C10Bins", "PyYetiVerif.Props.C10Labels", "PyYetiVerif.Props.C10Psd", "PyYetiVerif.Props.C10Locate",
+                "PyYetiVerif.Audit.C10"]
 AUDIT_FILE = "PyYetiVerif/Audit/C10.lean"
 THEOREMS = ["PyYetiVerif.C10." + n for n in (
     "seq_first_selected seq_alternates seq_extremes_within_two_stol seq_end_rule_counterexample "
@@ -54,6 +56,19 @@ THEOREMS = ["PyYetiVerif.C10." + n for n in (
     "test_damage_positive test_variance_reproduces_internal test_variance_reproduces test_variance_pvelo_factor "
     "test_variance_pvelo_counterexample G_b_monotone_in_damage G2_ge_G1_loop psd_quadratic_scaling cycle_table_scaling "
     "psd_quadratic_scaling_signal "
+    # third phase: repair candidates (theorems about the PATCHED functions of corpus/c10_*_candidate_fix.diff)
+    "findap_fixed_first_selected findap_fixed_alternates findap_fixed_extremes_within_stol findap_fixed_variants_agree "
+    "findap_fixed_numba_variant findap_fixed_unchanged_on_fast_path findap_fixed_F4_example findap_fixed_F14_F22_F23_examples "
+    "test_variance_reproduces_fixed var_test_is_documented_variance fix_F25_changes_var_test_only "
+    # binify / sigcount end to end
+    "digitize_eq_iff explicit_bins_range binify_drops_uncovered binify_conserves_2d binify_explicit_bins_spec "
+    "roundHalfEven_close labels_distinct_of_gap label_collision_example getLabels_length binify_packaging sigcount_is_composition "
+    "sigcount_auto_conserves "
+    # fdepsd bookkeeping
+    "binamps_formula count_is_upper_cumulative counts_antitone bincount_diff psd_G_formulas psd_inverse_in_Q "
+    "resp_switch_G1_G2 fdeFreq_neg psd_quadratic_scaling_full psd_quadratic_scaling_input "
+    # locate
+    "find_unique_spec find_unique_length findap_uses_find_unique find_unique_boundary_example "
 ).split()]
 TRUSTED = [
     "correspondence harness harness/props/c10.py (exact comparison on dyadic inputs; bit-for-bit on srs/Amax/binamps/count/bincount "
@@ -67,6 +82,11 @@ TRUSTED = [
     "Lean's Float.log/sqrt/pow (C library) vs numpy's log/sqrt/power and np.var's pairwise summation vs the model's sequential sum: "
     "compared at 1e-9; the theorems about sig2_b, G1..G12, Dt_b are over the reals (Real.log, Real.sqrt, Real.rpow) and say "
     "nothing about rounding",
+    "Python's format(x, '.pf') prints the correctly rounded (ties-to-even) decimal of the exact value of the double: modelled over Rat by "
+    "Binify.fmtFixed and compared as strings on every run; pandas DataFrame construction (index/columns/names) is compared, not modelled",
+    "np.argsort inside locate.find_duplicates: any order among equal values (the model uses a merge sort)",
+    "corpus/c10_candidate_fix_check.py (ties the repair-candidate models FindapFix / FdePsdFix to the patched text in a scratch worktree; "
+    "not part of ./check)",
 ]
 RULE = (
     "findap: all signals over {0..3} of length 1..6 (7 thorough) x 5 tolerances plus seeded dyadic signals "
@@ -78,7 +98,11 @@ RULE = (
     "{1,2,3,4,5,8,12} x dyadic step x data = both ends + points on interior edges and bin centres | constant data | one sample | two "
     "samples x right; fdepsd: option grid resp x nbins x T0 x rolloff x hpfilter x winends on seeded random signals, one case = one "
     "frequency row; worker stream: the same grid (other salt) plus dyadic signals through an identity SDOF filter (cycles exactly "
-    "on bin levels, constant-amplitude tables, nbins in {1,2,4,8,16}, both resp); distinct by the canonical input"
+    "on bin levels, constant-amplitude tables, nbins in {1,2,4,8,16}, both resp); packaging: dyadic cycle tables x explicit bins (values on "
+    "the first / last edge, outside, narrow bins whose labels collide) or integer counts on either axis x right x check_bounds x "
+    "precision in {0,1,2,3,5} x retbins x use_pandas, plus sigcount on seeded signals - table, label strings, axis names, edges; "
+    "locate: dyadic vectors with plateaus and steps exactly equal to stol x tol in {0,1e-6,1/4,1/2,1,-1/4,1/maxstep}; find_duplicates "
+    "tol in {0,1/4,1/2,1,-1}; distinct by the canonical input"
 )
 ASSUMPTIONS = [
     "float arithmetic on the generated dyadic inputs is exact; (signal, tol) pairs whose float stol would decide a "
@@ -87,31 +111,40 @@ ASSUMPTIONS = [
     "stream (the Float worker stream needs no such skip: it performs the same IEEE operations)",
     "scalar `bins` >= 1; an explicit `bins` vector of length 1 is a scalar by the code's own rule",
     "fdepsd formulas: f*T0 > 1 for resp='absacce' (ln N0 > 0 and Dt_b > 0: proved test_damage_positive), f*T0 > 0 and != 1 for 'pvelo'; "
-    "Q > 0, f > 0; scaling factor c > 0",
+    "Q > 0, f > 0; scaling factor c != 0",
+    "labels of COMPUTED (integer-count) edges are compared only when no rounding boundary of the precision-digit format lies within 1e-6 "
+    "(relative to the last printed place) of the edge; otherwise skipped and counted; explicit dyadic edges are always compared",
 ]
 PARTIAL = (
-    "default findap: alternation/extremes proved only under NoSubTolDrift (finding F4; necessity proved by "
-    "default_drift_counterexample); numba variant: first sample and alternation proved in full, extremes proved within "
-    "2*stol — within stol is false (seq_end_rule_counterexample, finding F22) and no stol-strength partial theorem is "
-    "proved; the variant can fail outright (seq_unbound_counterexample, F14); 'both variants select the same set' is not "
-    "proved: false even without drift (variants_differ_counterexample, F23), the agreement hypothesis (no drift and no "
-    "return within stol of a run head) is used by the oracle's classification only; auto_bins_cover / binify_auto_conserves are "
-    "proved over exact arithmetic: in doubles the end-point nudge 0.001*(mx-mn) can be absorbed by rounding (new finding "
-    "getbins-auto-nudge-absorbed-by-rounding, relative data spread below ~1e-13), outside that family the float edges are tied by "
-    "the exact autobins stream; test_variance_reproduces is proved for resp='absacce' and for the Dt_b the code solves with; for "
-    "resp='pvelo' the RETURNED di_test satisfies the relation only up to the factor 2**(b/2) (test_variance_pvelo_factor, "
-    "test_variance_pvelo_counterexample; finding F25 stays open); psd_quadratic_scaling is proved from the filtered response on "
-    "(psd_quadratic_scaling_signal: findap + rainflow + all bookkeeping) for c > 0 — the linearity of lfilter/detrend/windowends/"
-    "butter/resample in front of it is sampled by the oracle's x4 run only, c < 0 is not treated; G2_ge_G1_loop assumes every "
-    "examined level's count is below the total (equality makes the code divide by zero: G2 = inf in doubles, still >= G1)"
+    "UNPATCHED code (what /repo runs): default findap: alternation/extremes proved only under NoSubTolDrift (finding F4; necessity proved "
+    "by default_drift_counterexample); numba variant: first sample and alternation proved in full, extremes proved within 2*stol - within "
+    "stol is false (seq_end_rule_counterexample, F22); the variant can fail outright (seq_unbound_counterexample, F14); 'both variants "
+    "select the same set' is false even without drift (variants_differ_counterexample, F23).  For the PATCHED functions of "
+    "corpus/c10_F4/F14_F22/F23_candidate_fix.diff all of this is proved for every signal and tolerance (findap_fixed_*), but those "
+    "theorems are about repair candidates, not about /repo; F4 F14 F22 F23 F25 stay open until a patch is applied.  F23 cannot be "
+    "repaired without changing what one variant returns on the 'return' family (stated in the diff).  fdepsd: test_variance_reproduces "
+    "holds for resp='absacce'; for 'pvelo' only up to 2**(b/2) (test_variance_pvelo_factor, F25); test_variance_reproduces_fixed is "
+    "about the patched tail.  auto_bins_cover / binify_auto_conserves / labels_distinct_of_gap are over exact arithmetic (doubles: "
+    "finding F41, fixed; labels of computed edges within 1e-6 of a rounding boundary are skipped and counted).  binify: the total of the "
+    "table and the cell of every cycle are proved (binify_places, binify_drops_uncovered, binify_conserves_2d, "
+    "binify_explicit_bins_spec); the cell-by-cell sum formula is not stated as a theorem.  find_duplicates: code model and documented "
+    "meaning are both in Lean and compared on every run; their equivalence is not proved.  psd_quadratic_scaling_full covers c of either "
+    "sign from the filtered response on; that detrend/windowends/butter/lfilter/resample are homogeneous is the specification "
+    "IsLinear (psd_quadratic_scaling_input), sampled by the oracle's x4 and x(-4) runs, not proved.  G2_ge_G1_loop assumes every "
+    "examined level's count is below the total (equality: division by zero, G2 = inf in doubles, still >= G1).  String rendering of "
+    "labels (digits, sign of a negative value rounding to zero) is executable model + exact stream, theorems are about the label NUMBER."
 )
 MANIFEST = {
-    "level_text": "proof (partial for default findap: known finding F4; fdepsd test-variance relation for pvelo: known finding F25)",
-    "level_note": "selection and binning are modelled exactly over Rat (auto bins: construction, strict monotonicity and coverage "
-                  "proved); everything fdepsd computes per frequency after lfilter is one polymorphic Lean definition, proved about "
-                  "over the reals (amax_le_srs, bincount_spec, damage_def, damage_per_cycle, test_variance_*, G_b_monotone_in_damage, "
-                  "G2_ge_G1_loop, psd_quadratic_scaling*) and run at Float against every returned table; only tied/measured: "
-                  "lfilter and the signal pre-processing, libm rounding of log/sqrt/pow",
+    "level_text": "proof (partial for default findap: known finding F4; numba variant F14/F22/F23; fdepsd test-variance relation for pvelo: "
+                  "known finding F25) + proved repair candidates for all five open findings (theorems about the patched functions)",
+    "level_note": "selection, binning (explicit and automatic bins, both `right` conventions, 2-D counts, what is dropped), labels/packaging, "
+                  "sigcount as a composition and locate.find_unique are modelled exactly over Rat and proved about; everything fdepsd "
+                  "computes per frequency after lfilter is one polymorphic Lean definition, proved about over the reals (amax_le_srs, "
+                  "bincount_spec, count_is_upper_cumulative, damage_def, psd_G_formulas, test_variance_*, G2_ge_G1_loop, "
+                  "psd_quadratic_scaling_full for c of either sign) and run at Float against every returned table; only tied/measured: "
+                  "lfilter and the signal pre-processing (specification IsLinear), libm rounding of log/sqrt/pow, decimal string "
+                  "rendering of labels, find_duplicates' equivalence with its documented meaning; the repair candidates are tied to the "
+                  "patched text by corpus/c10_candidate_fix_check.py in a scratch worktree, never by the check itself",
     "technique": "Lean 4 theorems about executable models + exact correspondence + Float run of the same definitions (numeric 1e-9) "
                  "+ ast transcription of the numba variant",
 }
@@ -1000,13 +1033,269 @@ def _corr_fde_worker(ctx, drv):
         ctx.case((kind, repr(inp), j), nontrivial=True, branch="fdeworker:%s:resp=%s" % (kind, resp))
         ctx.count("fdeworker:g2-%s" % ("raised" if m["g2max"] != m["amax"] ** 2 else "kept"))
         ctx.count("fdeworker:nbins=%s" % ("1" if nb == 1 else "2" if nb == 2 else "many"))
-        if kind == "exact" and nb > 1 and np.any(np.isin(m["levels"][1:], np.asarray(out.binamps.values[j])[1:])):
-            pass
+        if kind == "exact" and nb > 1:
+            # exact coincidences (a cycle amplitude ON a bin level) inside the Float stream: `amp >= level` must be decided alike
+            from pyyeti import cyclecount as _cc
+            sg = np.asarray(inp["exact_sig"], dtype=float)
+            rf_ = np.asarray(_cc.rainflow(sg[_cc.findap(sg)], use_pandas=False))
+            if np.any(np.isin(rf_[:, 0], m["levels"][1:])):
+                ctx.count("fdeworker:exact:cycle-on-level")
         ok = _cmp_ff(ctx, "worker" if kind == "grid" else "worker-exact", inp, out, j, m, worker)
         if ok and len(ctx.samples) < 6 and j == 0 and kind == "grid":
             ctx.sample({"fdepsd-worker": inp, "psd": out.psd.values[j].tolist()})
     return ["fdeworker:grid:resp=absacce", "fdeworker:grid:resp=pvelo", "fdeworker:exact:resp=absacce", "fdeworker:exact:resp=pvelo",
-            "fdeworker:g2-raised", "fdeworker:g2-kept", "fdeworker:nbins=1", "fdeworker:nbins=2", "fdeworker:nbins=many"]
+            "fdeworker:g2-raised", "fdeworker:g2-kept", "fdeworker:nbins=1", "fdeworker:nbins=2", "fdeworker:nbins=many",
+            "fdeworker:exact:cycle-on-level"]
+
+
+
+# binify / sigcount: everything returned (labels, index/columns, names, retbins) ----------------
+
+def _label_safe(edges_impl, edges_model, p):
+    """the decimal label of an implementation edge (a double that may differ from the model's exact rational by rounding of the
+    nudge / linspace arithmetic) is the model's unless a rounding boundary of the `precision`-digit format lies between them"""
+    for e, w in zip(edges_impl, edges_model):
+        fe = Fraction(float(e))
+        if fe == w:
+            if float(e) == 0.0 and math.copysign(1.0, float(e)) < 0:
+                return False  # -0.0 prints "-0.000"; the rational model has no signed zero
+            continue
+        for v in (fe, w):
+            fr = (abs(v) * 10 ** p) % 1
+            if abs(fr - Fraction(1, 2)) < Fraction(1, 10 ** 6):
+                return False
+        if (fe < 0) != (w < 0):
+            return False
+    return True
+
+
+def _pack_cases(ctx, n):
+    rng = ctx.rng
+    out = [("bx", [(1.5, -0.5, 0.5), (2.0, -1.0, 0.5), (2.0, 1.0, 1.0), (4.0, 1.0, 0.5), (4.5, 0.5, 0.5), (4.0, 0.0, 0.5), (3.0, 1.0, 0.5)],
+            True, True, 3, True, True, [3, 2], "doc"),
+           ("bx", [(1.0, 0.0, 1.0), (2.0, 0.5, 0.5), (3.0, 1.0, 1.0)], True, True, 3, True, True,
+            [[1.0, 1.0001220703125, 1.000244140625, 3.5], [-1.0, 2.0]], "collision"),
+           ("bx", [(1.0, 0.0, 1.0), (2.0, 0.5, 0.5), (3.0, 1.0, 1.0)], False, True, 0, True, True, [[0.5, 1.5, 2.5, 3.5], [-0.5, 0.5, 2.5]], "ties")]
+    for _ in range(n):
+        right, check = rng.random() < 0.5, rng.random() < 0.8
+        p = rng.choice([0, 1, 2, 3, 3, 5])
+        retbins, pandas_ = rng.random() < 0.6, rng.random() < 0.7
+        br, bm = _gen_bins(rng, 0, 8), _gen_bins(rng)
+        if rng.random() < 0.25:   # narrow bins: labels collide at low precision
+            j = rng.randrange(len(br) - 1)
+            br = sorted(set(br + [br[j] + 2.0 ** -rng.randint(5, 12), br[j] + 2.0 ** -4]))
+        cyc = _gen_cycles(rng, br, bm, rng.randint(1, 9))
+        specs = [br if rng.random() < 0.75 else rng.choice([1, 2, 3, 5]), bm if rng.random() < 0.75 else rng.choice([1, 2, 3])]
+        if rng.random() < 0.05 and not isinstance(specs[1], int):
+            specs[1] = specs[1][:-1] + [specs[1][0]]   # not increasing: ValueError
+        out.append(("bx", cyc, right, check, p, retbins, pandas_, specs, "gen"))
+    for _ in range(n // 3):
+        y, _, _ = _gen_signals(ctx, 1)[0]
+        if len(y) < 3 or not _stol_ok(y, 1e-6):
+            continue
+        out.append(("sx", y, rng.random() < 0.5, True, rng.choice([0, 2, 3]), rng.random() < 0.5, rng.random() < 0.7,
+                    [rng.choice([1, 2, 4, _gen_bins(rng, 0, 8)]), rng.choice([1, 2, 3, _gen_bins(rng)])], "gen"))
+    return out
+
+
+def _run_pack(kind, data, right, check, p, retbins, pandas_, specs):
+    """-> (table rows as Fractions, index|None, columns|None, names|None, ampb|None, aveb|None) or an exception tag"""
+    from pyyeti import cyclecount
+    import pandas as pd
+
+    try:
+        if kind == "bx":
+            res = cyclecount.binify(np.array(data, dtype=float), specs[0], specs[1], right, p, retbins, pandas_, check)
+        else:
+            res = cyclecount.sigcount(np.array(data, dtype=float), specs[0], specs[1], right, p, retbins, pandas_)
+    except ValueError:
+        return "value-error"
+    except IndexError:
+        return "index-error"
+    except Exception as e:  # noqa: BLE001
+        return "exc:" + type(e).__name__
+    ab = mb = None
+    if retbins:
+        if not (isinstance(res, tuple) and len(res) == 3):
+            return "bad-output:retbins"
+        res, ab, mb = res
+        ab, mb = np.asarray(ab, float), np.asarray(mb, float)
+    elif isinstance(res, tuple):
+        return "bad-output:tuple-without-retbins"
+    if pandas_:
+        if not isinstance(res, pd.DataFrame):
+            return "bad-output:not-a-DataFrame"
+        return (_table_canon(res.values), [str(v) for v in res.index], [str(v) for v in res.columns],
+                (str(res.index.name), str(res.columns.name)), ab, mb)
+    if not isinstance(res, np.ndarray):
+        return "bad-output:not-an-ndarray"
+    return (_table_canon(res), None, None, None, ab, mb)
+
+
+def _corr_packaging(ctx, drv):
+    """exact stream: binify / sigcount with use_pandas, retbins, precision, check_bounds, explicit and integer bins on both axes
+    against Binify.binifyFull / sigcountFull — table, index and column LABELS (strings), axis names, returned edges."""
+    from pyyeti import cyclecount
+
+    cases = _pack_cases(ctx, ctx.pick(500, 5000))
+    req = []
+    for kind, data, right, check, p, retbins, pandas_, specs, _ in cases:
+        for rb, up in ((retbins, pandas_), (True, False)):   # second request: the model's edges, always
+            if kind == "bx":
+                req.append("bx %d %d %d %d %d | %s | %s | %s" % (right, check, p, rb, up, _spec_str(specs[0]), _spec_str(specs[1]), _cyc_str(data)))
+            else:
+                req.append("sx %s %d %d %d %d | %s | %s | %s" % (_fr(1e-6), right, p, rb, up, _spec_str(specs[0]), _spec_str(specs[1]), _frs(data)))
+    rep = drv.ask(req)
+    for k, (kind, data, right, check, p, retbins, pandas_, specs, tag) in enumerate(cases):
+        r, r2 = rep[2 * k], rep[2 * k + 1]
+        inp = {"kind": kind, "data": data, "right": right, "check_bounds": check, "precision": p, "retbins": retbins,
+               "use_pandas": pandas_, "ampbins": specs[0], "meanbins": specs[1]}
+        got = _run_pack(kind, data, right, check, p, retbins, pandas_, specs)
+        name = "binify-full" if kind == "bx" else "sigcount-full"
+        if r in ("value-error", "index-error") or isinstance(got, str):
+            ctx.case((kind, repr(inp)), branch="pack:" + (r if r in ("value-error", "index-error") else "table"))
+            if got != r:
+                ctx.disagree(name, inp, str(got)[:300], r[:300])
+            continue
+        ts, idx, cols, names, abs_, mbs = r.split("|")
+        want_T = _parse_table(ts)
+        e2 = r2.split("|")
+        mab = [Fraction(t) for t in e2[4].split()]
+        mmb = [Fraction(t) for t in e2[5].split()]
+        imp2 = _run_pack(kind, data, right, check, p, True, False, specs)
+        if isinstance(imp2, str):
+            ctx.disagree(name, inp, imp2, r2[:200])
+            continue
+        iab, imb = imp2[4], imp2[5]
+        exact_edges = all(not isinstance(sp, int) for sp in specs)
+        if not exact_edges:
+            # conditioning as in the `bn` stream: a datum within rounding of a computed (non-dyadic) edge
+            if kind == "sx":
+                yy = np.array(data, dtype=float)
+                rf = np.asarray(cyclecount.rainflow(yy[cyclecount.findap(yy)], use_pandas=False))
+                cols_data = (rf[:, 0].tolist(), rf[:, 1].tolist())
+            else:
+                cols_data = ([c[0] for c in data], [c[1] for c in data])
+            bad = False
+            for vals, ie, me in zip(cols_data, (iab, imb), (mab, mmb)):
+                if len(ie) != len(me):
+                    continue
+                for x in vals:
+                    for e, w in zip(ie, me):
+                        if (x == e) != (Fraction(x) == w) or (x != e and abs(x - e) < 1e-9):
+                            bad = True
+            if bad:
+                ctx.skip("binify-full: datum within rounding of a computed (non-dyadic) edge")
+                continue
+        T, gi, gc, gn, gab, gmb = got
+        if len(mab) == 1:
+            want_T = [[] for _ in range(len(mmb) - 1)]
+        ctx.case((kind, repr(inp)), nontrivial=True, branch="pack:table")
+        ctx.count("pack:%s" % ("pandas" if pandas_ else "ndarray"))
+        ctx.count("pack:retbins=%d" % retbins)
+        ctx.count("pack:precision=%d" % p)
+        if kind == "sx":
+            ctx.count("pack:sigcount")
+        if len(mmb) > 2 and len(mab) > 2:
+            ctx.count("pack:two-dimensional")
+        if kind == "bx" and exact_edges:
+            amps = [c[0] for c in data]
+            if right and any(a == specs[0][0] for a in amps):
+                ctx.count("pack:explicit:on-first-edge-right")
+            if (not right) and any(a == specs[0][-1] for a in amps):
+                ctx.count("pack:explicit:on-last-edge-left")
+            if any(a > specs[0][-1] or a < specs[0][0] for a in amps):
+                ctx.count("pack:explicit:outside")
+        ok, what = T == want_T, "table"
+        tol_e = Fraction(1, 10 ** 12)
+
+        def edges_ok(ia, ma):
+            return len(ia) == len(ma) and all((Fraction(float(a)) == w) if exact_edges else abs(Fraction(float(a)) - w) <= tol_e * (abs(w) + 1)
+                                               for a, w in zip(ia, ma))
+
+        if ok and not (edges_ok(iab, mab) and edges_ok(imb, mmb)):
+            ok, what = False, "edges"
+        if ok and retbins and not (abs_ != "-" and np.array_equal(gab, iab) and np.array_equal(gmb, imb)
+                                   and [Fraction(t) for t in abs_.split()] == mab and [Fraction(t) for t in mbs.split()] == mmb):
+            ok, what = False, "returned edges (retbins)"
+        if ok and not retbins and (abs_ != "-" or mbs != "-"):
+            ok, what = False, "retbins=False but the model returns edges"
+        if ok and pandas_:
+            mi, mc = (idx.split(";") if idx else []), (cols.split(";") if cols else [])
+            if names != "%s;%s" % gn:
+                ok, what = False, "axis names"
+            elif len(gi) != len(mi) or len(gc) != len(mc):
+                ok, what = False, "number of labels"
+            elif not (exact_edges or (_label_safe(iab, mab, p) and _label_safe(imb, mmb, p))):
+                ctx.skip("binify-full: a label rounding boundary lies within rounding of a computed edge")
+            else:
+                ctx.count("pack:labels-compared")
+                if len(set(mc)) < len(mc) or len(set(mi)) < len(mi):
+                    ctx.count("pack:label-collision")
+                if gi != mi or gc != mc:
+                    ok, what = False, "labels"
+        if ok and not pandas_ and (idx != "-" or cols != "-" or names != "-"):
+            ok, what = False, "use_pandas=False but the model returns labels"
+        if not ok:
+            ctx.disagree(name + ":" + what, inp, str(got)[:400], r[:400])
+    return ["pack:table", "pack:value-error", "pack:pandas", "pack:ndarray", "pack:retbins=0", "pack:retbins=1", "pack:precision=0",
+            "pack:precision=3", "pack:precision=5", "pack:sigcount", "pack:two-dimensional", "pack:explicit:on-first-edge-right",
+            "pack:explicit:on-last-edge-left", "pack:explicit:outside", "pack:labels-compared", "pack:label-collision"]
+
+
+# locate.find_unique / find_duplicates -----------------------------------------------------------
+
+def _locate_cases(ctx, n):
+    rng = ctx.rng
+    out = [([0.0, 1.0, 3.0], 0.5, "u"), ([2.0, 2.0, 5.0, 5.0], 0.0, "u"), ([3.0, 4.0], 1.0, "u"), ([5.0], 1e-6, "u"), ([], 1e-6, "u"),
+           ([0.0, 10, 2, 2, 6, 10, 10], 0.0, "d"), ([1.0], 0.0, "d"), ([], 0.0, "d"), ([1.0, 1.25, 3.0, 2.75], 0.25, "d")]
+    for _ in range(n):
+        L = rng.randint(2, 14)
+        k = rng.choice([1, 2, 4, 8])
+        y = [rng.randint(-8, 8) / k for _ in range(L)]
+        if rng.random() < 0.4:   # plateaus
+            y = [v for v in y for _ in range(rng.randint(1, 3))][:16]
+        md = max(abs(b - a) for a, b in zip(y, y[1:])) if len(y) > 1 else 0
+        tol = rng.choice([0.0, 1e-6, 0.25, 0.5, 1.0, -0.25] + ([1.0 / (md * k)] if md and (md * k) in (1, 2, 4, 8, 16) else []))
+        out.append((y, tol, "u"))
+        out.append((y, rng.choice([0.0, 0.0, 0.25, 0.5, 1.0, -1.0]), "d"))
+    return out
+
+
+def _corr_locate(ctx, drv):
+    from pyyeti import locate
+
+    cases = [(y, tol, k) for y, tol, k in _locate_cases(ctx, ctx.pick(400, 4000)) if k == "d" or _stol_ok(y, tol)]
+    rep = drv.ask([("fu %s | %s" if k == "u" else "fdup %s | %s") % (_fr(tol), _frs(y)) for y, tol, k in cases])
+    for (y, tol, k), r in zip(cases, rep):
+        inp = {"v": y, "tol": tol}
+        if k == "u":
+            try:
+                got = " ".join("1" if b else "0" for b in locate.find_unique(np.array(y, dtype=float), tol))
+            except ValueError:
+                got = "value-error"
+            except Exception as e:  # noqa: BLE001
+                got = "exc:" + type(e).__name__
+            st = abs(tol * max(abs(b - a) for a, b in zip(y, y[1:]))) if len(y) > 1 else None
+            on = st is not None and any(abs(b - a) == st for a, b in zip(y, y[1:]))
+            ctx.case(("fu", tuple(y), tol), nontrivial=len(y) > 1, branch="find_unique:" + ("value-error" if r == "value-error" else "mask"))
+            if on and st > 0:
+                ctx.count("find_unique:step-equals-stol")
+            if tol == 0 and any(a == b for a, b in zip(y, y[1:])):
+                ctx.count("find_unique:tol=0-plateau")
+            if got != r:
+                ctx.disagree("locate.find_unique", inp, got, r)
+        else:
+            code, spec = r.split("|")
+            got = " ".join("1" if b else "0" for b in locate.find_duplicates(np.array(y, dtype=float), tol))
+            ctx.case(("fdup", tuple(y), tol), nontrivial=len(y) > 1,
+                     branch="find_duplicates:" + ("short" if len(y) < 2 else "tol=0" if tol == 0 else "tol>0" if tol > 0 else "tol<0"))
+            if got != code.strip():
+                ctx.disagree("locate.find_duplicates", inp, got, code)
+            if code.strip() != spec.strip():
+                ctx.disagree("find_duplicates: sorted-neighbour model vs documented meaning (both Lean)", inp, code, spec)
+    return ["find_unique:mask", "find_unique:value-error", "find_unique:step-equals-stol", "find_unique:tol=0-plateau",
+            "find_duplicates:short", "find_duplicates:tol=0", "find_duplicates:tol>0", "find_duplicates:tol<0"]
 
 
 def correspondence(ctx):
@@ -1017,6 +1306,8 @@ def correspondence(ctx):
     need += _corr_fdepsd(ctx, drv)
     need += _corr_fdepsd_exact(ctx, drv)
     need += _corr_fde_worker(ctx, drv)
+    need += _corr_packaging(ctx, drv)
+    need += _corr_locate(ctx, drv)
     ctx.exhaustive = False
     ctx.require_branches(need)
 
@@ -1265,6 +1556,7 @@ def _oracle_fdepsd(ctx, sig, sr, freq, Q, opts):
             lvl = ba[j, jj]
             near = np.abs(rf[:, 0] - lvl) < 1e-12 * rf[:, 0].max()
             if np.any(near & (rf[:, 0] != lvl)):
+                ctx.count("oracle:fdepsd-level-within-1e-12-skipped")
                 continue
             if cnt[j, jj] != rf[rf[:, 0] >= lvl, 2].sum():
                 fail("fdepsd-count-level-wrong", "count[j, k] is not the number of cycles with amplitude >= binamps[j, k]",
@@ -1344,6 +1636,14 @@ def _oracle_fdepsd(ctx, sig, sr, freq, Q, opts):
                  np.asarray(want).tolist())
     # quadratic scaling (power-of-two factor: the float operations commute with it up to pow/log rounding)
     out4 = fdepsd.fdepsd(4.0 * np.asarray(sig), sr, freq, Q, parallel="no", **opts)
+    # ... and a factor of the other sign (psd_quadratic_scaling_full: everything depends on |c| only)
+    outm = fdepsd.fdepsd(-4.0 * np.asarray(sig), sr, freq, Q, parallel="no", **opts)
+    for name in ("psd", "peakamp", "binamps", "count", "bincount", "var", "srs", "di_sig", "di_test", "var_test"):
+        a_, b_ = np.asarray(getattr(outm, name).values, float), np.asarray(getattr(out4, name).values, float)
+        if a_.shape != b_.shape or not np.allclose(a_, b_, rtol=1e-9, atol=0):
+            fail("fdepsd-negated-signal-differs-%s" % name, "scaling the signal by -4 and by +4 give different `%s`" % name,
+                 a_.ravel()[:6].tolist(), b_.ravel()[:6].tolist())
+            break
     if not np.allclose(out4.psd.values, 16.0 * psd, rtol=1e-9, atol=0) or not np.array_equal(out4.count.values, cnt):
         fail("fdepsd-psd-not-quadratic", "PSD outputs do not scale with the square of the input amplitude", out4.psd.values.tolist(), (16 * psd).tolist())
     checks = [("binamps", out4.binamps.values, 4.0 * ba), ("peakamp", out4.peakamp.values, 4.0 * pk), ("srs", out4.srs.values, 4.0 * out.srs.values),
@@ -1403,10 +1703,79 @@ def _guard(ctx, which, inp, fn, *a):
         ctx.fail("%s-raises-%s" % (which, type(e).__name__), "%s raises on a valid input" % which, inp, repr(e)[:300], "a result")
 
 
+def _oracle_packaging(ctx, cyc, right, check, p, specs):
+    """binify's packaging restated on the API: the DataFrame carries the ndarray's numbers, one label per bin in the documented format
+    of the returned edges, the documented axis names; explicit edge vectors are returned as given; labels of bins wider than one unit
+    in the last printed place are all different."""
+    from pyyeti import cyclecount
+
+    inp = {"cycles": cyc, "right": right, "check_bounds": check, "precision": p, "ampbins": specs[0], "meanbins": specs[1]}
+    arr = np.array(cyc, dtype=float)
+    try:
+        T, ab, mb = cyclecount.binify(arr, specs[0], specs[1], right, p, True, False, check)
+    except (ValueError, IndexError):
+        return
+    df = cyclecount.binify(arr, specs[0], specs[1], right, p, False, True, check)
+    if not hasattr(df, "columns") or not np.array_equal(np.asarray(df.values), np.asarray(T)):
+        ctx.fail("binify-pandas-table-differs-from-ndarray", "use_pandas=True and use_pandas=False return different numbers", inp,
+                 str(np.asarray(getattr(df, "values", df)).tolist())[:200], np.asarray(T).tolist())
+        return
+    for name, sp, bb in (("ampbins", specs[0], ab), ("meanbins", specs[1], mb)):
+        if not isinstance(sp, int) and len(sp) > 1 and not np.array_equal(np.asarray(bb, float), np.asarray(sp, float)):
+            ctx.fail("binify-retbins-not-the-given-edges", "retbins does not return the explicit `%s` vector" % name, inp, np.asarray(bb).tolist(), list(sp))
+            return
+    lo_, hi_ = ("(", "]") if right else ("[", ")")
+
+    def labels(bb):
+        return ["%s%.*f, %.*f%s" % (lo_, p, a, p, b, hi_) for a, b in zip(bb[:-1], bb[1:])]
+
+    if [str(v) for v in df.columns] != labels(ab) or [str(v) for v in df.index] != labels(mb):
+        ctx.fail("binify-labels-not-the-documented-format-precision=%d" % p, "index / columns are not one '(lo, hi]' / '[lo, hi)' label per bin with "
+                 "`precision` decimals of the returned edges", inp, [list(map(str, df.index)), list(map(str, df.columns))], [labels(mb), labels(ab)])
+        return
+    if (df.index.name, df.columns.name) != ("Mean", "Amp"):
+        ctx.fail("binify-axis-names", "axis names are not Mean / Amp", inp, [df.index.name, df.columns.name], ["Mean", "Amp"])
+    for bb, lab in ((ab, list(map(str, df.columns))), (mb, list(map(str, df.index)))):
+        if len(bb) > 1 and np.all(np.diff(bb) > 1.000001 * 10.0 ** -p) and len(set(lab)) != len(lab):
+            ctx.fail("binify-labels-collide-on-wide-bins", "two bins wider than 10**-precision carry the same label", inp, lab, "distinct labels")
+
+
+def _oracle_locate(ctx, y, tol):
+    from pyyeti import locate
+
+    v = np.array(y, dtype=float)
+    inp = {"v": list(y), "tol": tol}
+    if v.size >= 2:
+        u = np.asarray(locate.find_unique(v, tol))
+        d = np.diff(v)
+        st = abs(tol * np.abs(d).max())
+        want = [True] + [bool(abs(x) > st) for x in d]
+        if u.dtype != bool or u.tolist() != want:
+            ctx.fail("find-unique-mask-wrong" + ("-tol=0" if tol == 0 else "-step-equals-stol" if np.any(np.abs(d) == st) else ""),
+                     "locate.find_unique: a value is flagged although it differs from the previous one by no more than tol*max|diff| (or not "
+                     "flagged although it differs by more)", inp, u.tolist(), want)
+    dd = np.asarray(locate.find_duplicates(v, tol))
+    want = [any(j != k and abs(v[j] - v[k]) <= tol for j in range(v.size)) for k in range(v.size)]
+    if dd.tolist() != want:
+        ctx.fail("find-duplicates-wrong", "locate.find_duplicates: not 'True for any value repeated anywhere else (within tol)'", inp, dd.tolist(), want)
+
+
 def _oracle_sigcount(ctx, y):
     from pyyeti import cyclecount
 
     yy = np.array(y)
+    # sigcount = binify o rainflow o findap, with every option passed through
+    rf = cyclecount.rainflow(yy[cyclecount.findap(yy)], use_pandas=False)
+    for specs, right in (((3, 2), True), (([0.0, 1.0, 2.5, 80.0], 2), False)):
+        a = cyclecount.sigcount(yy, specs[0], specs[1], right, 2, True, True)
+        b = cyclecount.binify(rf, specs[0], specs[1], right, 2, True, True)
+        same = (np.array_equal(np.asarray(a[0].values), np.asarray(b[0].values)) and list(a[0].columns) == list(b[0].columns)
+                and list(a[0].index) == list(b[0].index) and np.array_equal(a[1], b[1]) and np.array_equal(a[2], b[2]))
+        if not same:
+            ctx.fail("sigcount-not-binify-of-rainflow-of-findap", "sigcount(sig, ...) differs from binify(rainflow(sig[findap(sig)]), ...)",
+                     {"y": list(y), "ampbins": specs[0], "meanbins": specs[1], "right": right},
+                     str(np.asarray(a[0].values).tolist())[:200], str(np.asarray(b[0].values).tolist())[:200])
+            return
     T = cyclecount.sigcount(yy, 3, 2, use_pandas=False)
     npk = int(np.count_nonzero(cyclecount.findap(yy)))
     if npk >= 2 and 2 * T.sum() != npk - 1:
@@ -1440,6 +1809,15 @@ def search(ctx, hints):
         ctx.count("oracle:binify")
         _guard(ctx, "binify", {"cycles": cyc, "right": right, "check_bounds": check, "ampbins": specs[0], "meanbins": specs[1]},
                _oracle_binify, ctx, cyc, right, check, specs)
+    for kind, data, right, check, p, retbins, pandas_, specs, _ in _pack_cases(ctx, ctx.pick(400, 4000)):
+        if kind != "bx":
+            continue
+        ctx.count("oracle:binify-packaging")
+        _guard(ctx, "binify", {"cycles": data, "right": right, "check_bounds": check, "precision": p, "ampbins": specs[0], "meanbins": specs[1]},
+               _oracle_packaging, ctx, data, right, check, p, specs)
+    for y, tol, _ in _locate_cases(ctx, ctx.pick(400, 4000)):
+        ctx.count("oracle:locate")
+        _guard(ctx, "locate", {"v": y, "tol": tol}, _oracle_locate, ctx, y, tol)
     for h in hints[:60]:
         i = h.get("input", {})
         if isinstance(i, dict) and "bins" in i and "data" in i:
@@ -1484,6 +1862,11 @@ def replay(ctx, data):
         _oracle_findap(ctx, dflt, seq, i["y"], i["tol"])
     elif "bins" in i and "data" in i:
         _guard(ctx, "getbins", i, _oracle_autobins, ctx, i["bins"], i["data"], i["right"])
+    elif "cycles" in i and "precision" in i:
+        _guard(ctx, "binify", i, _oracle_packaging, ctx, [tuple(c) for c in i["cycles"]], i["right"], i["check_bounds"], i["precision"],
+               [i["ampbins"], i["meanbins"]])
+    elif "v" in i and "tol" in i:
+        _guard(ctx, "locate", i, _oracle_locate, ctx, i["v"], i["tol"])
     elif "cycles" in i:
         _guard(ctx, "binify", i, _oracle_binify, ctx, [tuple(c) for c in i["cycles"]], i["right"], i["check_bounds"], [i["ampbins"], i["meanbins"]])
     elif "exact_sig" in i:
